@@ -148,6 +148,88 @@ _op("has_ind0", lambda L: int(bool(L.has_ind(0))), lambda M: int(0 < len(M)))
 _op("add", lambda L: L + [7], lambda M: M + [7])
 
 L_model = [None]  # current model list, for the == observations
+SLOTS = {}        # persistent objects created by earlier observations of the current history: a copy, a Python iterator
+
+
+def _mkcopy(L):
+    from vyxal.helpers import deep_copy
+
+    SLOTS["copy"] = deep_copy(L)
+    SLOTS["copy_pos"] = 0
+    return "made"
+
+
+def _copy_next(L):
+    c = SLOTS.get("copy")
+    if c is None:
+        return OUT_OF_DOMAIN
+    k = SLOTS.get("copy_pos", 0)
+    SLOTS["copy_pos"] = k + 1
+    return c[k] if c.has_ind(k) else "end"
+
+
+def _copy_next_model(M):
+    if "copy" not in SLOTS_MODEL:
+        return OUT_OF_DOMAIN
+    k = SLOTS_MODEL.get("copy_pos", 0)
+    SLOTS_MODEL["copy_pos"] = k + 1
+    return M[k] if k < len(M) else "end"
+
+
+def _copy_all(L):
+    c = SLOTS.get("copy")
+    return OUT_OF_DOMAIN if c is None else c.listify()
+
+
+def _mkiter(L):
+    SLOTS["iter"] = iter(L)
+    return "made"
+
+
+def _iter_next(L):
+    it = SLOTS.get("iter")
+    return OUT_OF_DOMAIN if it is None else next(it, "end")
+
+
+def _iter_next_model(M):
+    if "iter" not in SLOTS_MODEL:
+        return OUT_OF_DOMAIN
+    k = SLOTS_MODEL.get("iter_pos", 0)
+    SLOTS_MODEL["iter_pos"] = k + 1
+    return M[k] if k < len(M) else "end"
+
+
+def _iter_rest(L):
+    it = SLOTS.get("iter")
+    return OUT_OF_DOMAIN if it is None else list(it)
+
+
+def _iter_rest_model(M):
+    if "iter" not in SLOTS_MODEL:
+        return OUT_OF_DOMAIN
+    k = SLOTS_MODEL.get("iter_pos", 0)
+    SLOTS_MODEL["iter_pos"] = max(k, len(M))
+    return M[k:]
+
+
+SLOTS_MODEL = {}
+
+
+def _mk_model(slot):
+    def f(M):
+        SLOTS_MODEL[slot] = True
+        SLOTS_MODEL[slot + "_pos"] = 0
+        return "made"
+
+    return f
+
+
+_op("mkcopy", _mkcopy, _mk_model("copy"))
+_op("copy.next", _copy_next, _copy_next_model)
+_op("copy.all", _copy_all, lambda M: list(M) if "copy" in SLOTS_MODEL else OUT_OF_DOMAIN)
+_op("mkiter", _mkiter, _mk_model("iter"))
+_op("iter.next", _iter_next, _iter_next_model)
+_op("iter.rest", _iter_rest, _iter_rest_model)
 OPNAMES = list(OPS)
 QUICK_OPS = OPNAMES
 
@@ -178,6 +260,8 @@ def run_history(items, kind, hist, part=None, upto_only_last=False):
     L, src = mk(items, kind)
     M = list(items)
     L_model[0] = M
+    SLOTS.clear()
+    SLOTS_MODEL.clear()
     bad = []
     for step, name in enumerate(hist):
         impl, model = OPS[name]
@@ -193,7 +277,8 @@ def run_history(items, kind, hist, part=None, upto_only_last=False):
                 part.skip("index outside the list (plain list raises)")
         else:
             try:
-                got = norm(impl(L))
+                got = impl(L)
+                got = norm(got) if got is not OUT_OF_DOMAIN else got
             except Exception as e:  # the model never raises here
                 got = "raises " + type(e).__name__
             if part is not None:
@@ -210,10 +295,12 @@ def run_history(items, kind, hist, part=None, upto_only_last=False):
 
 
 def _shard(args):
-    items_list, kind, depth, ops = args
+    items_list, kind, depth, ops = args[:4]
+    prefix = (args[4],) if len(args) > 4 else ()
     part = explore.Partial()
     for items in items_list:
         for hist in itertools.product(ops, repeat=depth):
+            hist = prefix + hist
             bad, L, src = run_history(items, kind, hist, part)
             part.outcome((tuple(items), len(L.generated), src.stopped))
             part.nontriv()
@@ -237,11 +324,16 @@ def _bfs_source(args):
 
     def build(hist):
         bad, L, src = run_history(items, kind, hist)
-        return (L, src, bad)
+        slots = dict(SLOTS)
+        slots["iter_pos"] = SLOTS_MODEL.get("iter_pos", 0)
+        return (L, src, bad, slots)
 
     def canon(st):
-        L, src, bad = st
-        return (tuple(L.generated), src.pulls, src.stopped, bool(bad))
+        L, src, bad, slots = st
+        c = slots.get("copy")
+        return (tuple(L.generated), src.pulls, src.stopped, bool(bad),
+                None if c is None else (len(c.generated), slots.get("copy_pos", 0)),
+                slots.get("iter_pos") if "iter" in slots else None)
 
     def enabled(st, hist):
         if st[2]:
@@ -249,7 +341,7 @@ def _bfs_source(args):
         return OPNAMES
 
     def check(hist, st):
-        L, src, bad = st
+        L, src, bad, _slots = st
         for step, name, exp, got, pre in bad:
             if step == len(hist) - 1:
                 kindv = "invariant" if isinstance(got, list) and got[:1] == ["generated"] else (
@@ -279,6 +371,16 @@ def run(tier, seed):
         # generator-backed sources at depth 2 as well
         for items in srcs:
             shards.append(([items], "gen", 2, OPNAMES))
+    # deeper, still WITHOUT dedup, over the observations that create / advance persistent copies and iterators: a suspended
+    # iterator carries hidden state (its resume point) that no canonical form over the list's own fields can see
+    focus = ["idx0", "idx1", "len", "bool", "listify", "idx-1", "mkcopy", "copy.next", "copy.all", "mkiter", "iter.next", "iter.rest"]
+    fdepth = 5 if tier == "quick" else 6
+    fsrc = [[], [0], [0, 1], [0, 1, 2], [1, 1, 2]]
+    for items in fsrc:
+        for first in focus:
+            shards.append(([items], "gen", fdepth - 1, focus, first))
+            if tier == "thorough":
+                shards.append(([items], "iter", fdepth - 1, focus, first))
     explore.pmap(_shard, shards, rep, seed)
     n_hist = sum(len(s[3]) ** s[2] for s in shards)
     # dedup pass, deeper
